@@ -170,7 +170,65 @@ def monitorVanished (script : List Cmd) (iters : List Iter) (d : Nat) : Option S
               some s!"address-learned-on-vanished-interface-still-reported ip={hexOfBytes ip} if={idx} t={it.now}"
             else none
 
+/-- "with automatic addressing the service follows addresses as they appear and disappear":
+    histories of one daemon with an auto-addressed service (`register … <addrauto>=1`), no
+    enable / disable call, and changes of the OS interface table (`ifaces`).  For every change,
+    once the interface check has certainly run and the three probes and the announcement have
+    had their time (`effective`), and until the next change:
+
+    * an address that APPEARED (in the new table, not in the one before) has been sent in a
+      response on its interface and family - the announcement of the service there;
+    * an address that DISAPPEARED is in no response (TTL > 0) sent after `effective`. -/
+def monitorAuto (script : List Cmd) (iters : List Iter) (d : Nat) : Option String :=
+  let autoReg := script.any fun c => match c with | .register d' _ _ _ _ _ _ _ auto => d' == d && auto | _ => false
+  let selections := script.any fun c => match c with
+    | .other ("enable" :: _) | .other ("disable" :: _) | .unregister .. | .shutdown .. => true | _ => false
+  if !autoReg || selections then none else
+  let changes := script.zipIdx.filterMap fun ((c, i) : Cmd × Nat) =>
+    match c with | .ifaces d' ifs => if d' == d then some (i, ifs) else none | _ => none
+  if changes.isEmpty then none else
+  let table0 := ((script.filterMap fun c => match c with | .daemon ifs => some ifs | _ => none)[d]?).getD []
+  let ipint := (script.filterMap fun c => match c with | .ipint d' s => if d' == d then some s else none | _ => none).getLast?.getD 5
+  if ipint == 0 || ipint > 10 then none else
+  let pk := MonResponder.sentBy iters d
+  let scriptTime (i : Nat) : Nat := (script.take i).foldl (fun acc c => match c with | .run u => u | .now u => u | _ => acc) 0
+  let tEnd := script.foldl (fun acc c => match c with | .run u => max acc u | _ => acc) 0
+  let tStart := (iters.head?.map (·.now)).getD 0
+  -- the time of the registration: the service must be up before the change is judged
+  let regAt := (script.zipIdx.filterMap fun ((c, i) : Cmd × Nat) =>
+    match c with | .register .. => some (scriptTime i) | _ => none).foldl max 0
+  let tables := table0 :: changes.map (·.2)
+  (changes.zipIdx).findSome? fun (((ci, ifs), n) : (Nat × List Trace.Iface) × Nat) =>
+    let before := (tables[n]?).getD []
+    let tc := max (scriptTime ci) regAt
+    let tNext := ((changes.filter fun c => c.1 > ci).map fun c => scriptTime c.1).foldl min tEnd
+    -- interface check (the first one 5 s after the start, then `ipint` apart) + 3 probes 250 ms
+    -- apart + announcement + slack
+    let effective := max tc (tStart + 5000) + ipint * 1000 + 2000
+    if effective ≥ tNext then none else
+    let appeared := ifs.filter fun i => !(before.any fun j => j.index == i.index && j.ip == i.ip)
+    let gone := before.filter fun j => !(ifs.any fun i => j.index == i.index && i.ip == j.ip) &&
+      -- (the same address on another interface of the new table is still ours)
+      !(ifs.any fun i => i.ip == j.ip)
+    let carries (p : MonResponder.Pkt) (ip : BList) : Bool :=
+      p.resp && (p.m.answers ++ p.m.additionals).any fun r =>
+        r.ttl > 0 && (match r.rdata with | .a x | .aaaa x => x == ip | _ => false)
+    let missing := appeared.findSome? fun i =>
+      match SimResponder.parseIp i.ip with
+      | none => none
+      | some ip =>
+        -- loopback and the like are never used; judge only plain addresses of the generators
+        if pk.any fun p => p.t > scriptTime ci && p.t < tNext && p.ifi == i.index && p.v4 == i.v4 && carries p ip then none
+        else some s!"new-address-not-followed-by-auto-addressed-service ip={i.ip} if={i.index} by={effective}"
+    let stale := gone.findSome? fun j =>
+      match SimResponder.parseIp j.ip with
+      | none => none
+      | some ip =>
+        (pk.find? fun p => p.t ≥ effective && p.t < tNext && carries p ip).map fun p =>
+          s!"removed-address-still-sent-by-auto-addressed-service ip={j.ip} t={p.t}"
+    missing <|> stale
+
 def monitor (script : List Cmd) (iters : List Iter) (d : Nat) : Option String :=
-  monitorStatic script iters d <|> monitorVanished script iters d
+  monitorStatic script iters d <|> monitorVanished script iters d <|> monitorAuto script iters d
 
 end Mdns.Driver.MonLink
